@@ -18,6 +18,58 @@ fn discriminant_of(e: &ErrorMessages) -> u8 {
     unsafe { *(e as *const ErrorMessages as *const u8) }
 }
 
+/// a `fmt::Write` sink that compares what `Display` writes with the expected text on the fly (no allocation, no copy)
+pub struct Expect { pub want: &'static [u8], pub at: usize, pub ok: bool }
+impl std::fmt::Write for Expect {
+    fn write_str(&mut self, s: &str) -> std::fmt::Result {
+        let b = s.as_bytes();
+        if self.at + b.len() > self.want.len() || &self.want[self.at..self.at + b.len()] != b { self.ok = false; }
+        self.at += b.len();
+        Ok(())
+    }
+}
+/// C20 "for card reading the specification's message for c": what `Display` prints for the variant of code `c` is the
+/// table's text for `c`, whole and nothing else
+pub fn check_message(c: u8) -> bool {
+    use std::fmt::Write;
+    match (ErrorMessages::from_u8(c), table::message_of(c)) {
+        (Some(e), Some(m)) => {
+            let mut w = Expect { want: m.as_bytes(), at: 0, ok: true };
+            let r = write!(w, "{}", e);
+            r.is_ok() && w.ok && w.at == m.len()
+        }
+        (None, None) => true,
+        _ => false,
+    }
+}
+
+/// loop-free fingerprint sink: total length, first byte of the first piece, last byte of the last piece
+pub struct Finger { pub n: usize, pub first: u8, pub last: u8 }
+impl std::fmt::Write for Finger {
+    fn write_str(&mut self, s: &str) -> std::fmt::Result {
+        let b = s.as_bytes();
+        if b.len() > 0 {
+            if self.n == 0 { self.first = b[0]; }
+            self.last = b[b.len() - 1];
+            self.n += b.len();
+        }
+        Ok(())
+    }
+}
+pub fn check_message_fingerprint(c: u8) -> bool {
+    use std::fmt::Write;
+    match (ErrorMessages::from_u8(c), table::message_of(c)) {
+        (Some(e), Some(m)) => {
+            let mut w = Finger { n: 0, first: 0, last: 0 };
+            let r = write!(w, "{}", e);
+            let mb = m.as_bytes();
+            r.is_ok() && w.n == mb.len() && mb.len() > 0 && w.first == mb[0] && w.last == mb[mb.len() - 1]
+        }
+        (None, None) => true,
+        _ => false,
+    }
+}
+
 #[cfg(kani)]
 mod proofs {
     use super::*;
@@ -26,6 +78,13 @@ mod proofs {
     fn errcode_table() {
         let c: u8 = kani::any();
         assert!(check_code(c));
+    }
+    // NOT a harness: `check_message` over kani::any::<u8>() (Display through core::fmt, memcmp unwinding 92) spent 260 s in
+    // symbolic execution and did not finish within 10 minutes on this image; the message texts stay uninterpreted (seed C20g).
+    #[kani::proof]
+    fn errmsg_fingerprint() {
+        let c: u8 = kani::any();
+        assert!(check_message_fingerprint(c));
     }
     /// vacuity guard: both outcomes are reachable
     #[kani::proof]
